@@ -464,6 +464,10 @@ pub fn faults(em: &Emitted) -> Vec<Fault> {
         if al.named == 0 && al.positional == al.params && al.has_list && al.positional > 0 {
             out.push(Fault { class: "surplus-template-argument", file: al.file, span: (al.insert_at, al.insert_at), text: ", 1".into(), site: al.name_range });
         }
+        if al.has_list && al.required > 0 && al.positional > 0 {
+            // the whole argument list removed: a bare reference to a class with a parameter that has no default
+            out.push(Fault { class: "missing-template-argument", file: al.file, span: (al.name_range.1, al.insert_at + 1), text: String::new(), site: al.name_range });
+        }
         if let (Some(last), true) = (al.last_arg, al.named == 0 && al.positional > 0 && al.positional <= al.required) {
             // removing the last positional argument leaves a parameter without value
             let text = if al.positional == 1 { "<" } else { "" };
